@@ -102,6 +102,14 @@ class DataCase(object):
                 t = np.sort(rng.choice(POOL, size=n, replace=False))
                 v = rng.uniform(0.5, 3.0, size=n)
                 self.meas[k].append((t, v))
+        # an individual may lack every measurement of one observable (only
+        # the first biomarker was not assayed for that patient)
+        self.lacks_output = None
+        if self.n_out >= 2 and self.n_ids >= 2 and rng.random() < 0.3:
+            k = self.keys[int(rng.integers(self.n_ids))]
+            o = 0 if rng.random() < 0.7 else int(rng.integers(self.n_out))
+            self.meas[k][o] = (np.array([]), np.array([]))
+            self.lacks_output = (k, o)
         # doses
         self.doses = {k: [] for k in self.keys}
         self.with_duration_col = bool(rng.integers(2))
@@ -124,7 +132,7 @@ class DataCase(object):
         self.combined = {}
         if self.has_doses and rng.random() < 0.3:
             for k in self.keys:
-                if rng.random() < 0.7:
+                if rng.random() < 0.7 and len(self.meas[k][0][0]):
                     tt = float(self.meas[k][0][0][int(rng.integers(
                         len(self.meas[k][0][0])))])
                     d = float(rng.uniform(0.05, 0.2)) if (
@@ -375,7 +383,8 @@ def posterior_case(ctx, rng, idx):
              'integer_observable_codes': case.observable_codes,
              'mapping_reversed': case.map_explicit and case.map_reversed,
              'mapping_extra_key': case.map_explicit and case.map_extra_key,
-             'renamed_keys': case.key_names['id'] != 'ID'}
+             'renamed_keys': case.key_names['id'] != 'ID',
+             'individual_lacks_an_observable': case.lacks_output is not None}
     names_ind = case.indiv_names()
     n_ind = len(names_ind)
     # population model (decided before the frame because of covariate rows)
@@ -598,7 +607,10 @@ def _history(ctx, rng, case, c, df, kw, value, x, feats, pm,
                     r.schedule(100.0, 0.73210987, 0.1)
         else:
             idk = case.key_names['id']
-            first = df[idk].iloc[0]
+            # (an individual with measurements of every mapped observable)
+            firsts = [v for v in pd.unique(df[idk]) if not (
+                case.lacks_output and str(v) == case.lacks_output[0])]
+            first = firsts[0]
             sub = df[df[idk] == first]
             c2, kw2 = _setup_controller(case, sub, ctx, feats)
             c2.set_population_model(pm)
